@@ -128,7 +128,8 @@ class World:
         self.sched = None
         base = {"disposable": D.Disposable, "boolean": D.BooleanDisposable, "composite": D.CompositeDisposable,
                 "serial": D.SerialDisposable, "mad": D.MultipleAssignmentDisposable, "sad": D.SingleAssignmentDisposable,
-                "refcount": D.RefCountDisposable, "scheduled": D.ScheduledDisposable, "nest": D.CompositeDisposable}[cls]
+                "refcount": D.RefCountDisposable, "scheduled": D.ScheduledDisposable, "nest": D.CompositeDisposable,
+                "schedstack": D.ScheduledDisposable}[cls]
         mk = base
         if traced and cls in TRACED:
             extra = None
@@ -151,6 +152,26 @@ class World:
             self.obj = mk()
         elif cls == "refcount":
             self.obj = mk(self.items[0])
+        elif cls == "schedstack":
+            # 2-3 stacked ScheduledDisposable layers, each bound to its OWN scheduler; layer 0 wraps the resource
+            self.running = []      # indices of the schedulers currently executing an action (innermost last)
+            self.released_on = []  # for every release of the resource: the scheduler running at that moment (None: inline)
+            self.scheds = [self._mk_sched(k, kind) for k, kind in enumerate(case["layers"])]
+            res = self.items[0]
+            orig = res.dispose
+            world = self
+
+            def counted():
+                world.released_on.append(world.running[-1] if world.running else None)
+                orig()
+
+            res.dispose = counted
+            self.layers = []
+            inner = res
+            for sch in self.scheds:
+                inner = D.ScheduledDisposable(sch, inner)
+                self.layers.append(inner)
+            self.obj = self.layers[-1]
         elif cls == "nest":
             # a CompositeDisposable holding one SerialDisposable; leaves are assigned to the serial
             cm, sm = D.CompositeDisposable, D.SerialDisposable
@@ -192,6 +213,32 @@ class World:
             if lk is not None:
                 ctl.lock_names[id(lk)] = 0
             ctl.recording = True
+
+    def _mk_sched(self, k, kind):
+        """a scheduler that records, while it executes an action, that IT is the one running"""
+        world = self
+        if kind == "queue":
+            sch = QueueScheduler()
+            sch.kind = "queue"
+            return sch
+        if kind == "immediate":
+            from reactivex.scheduler import ImmediateScheduler as Base
+        else:
+            from reactivex.testing import TestScheduler as Base
+
+        class Marked(Base):
+            def schedule(self, action, state=None):
+                def marked(sc, st):
+                    world.running.append(k)
+                    try:
+                        return action(sc, st)
+                    finally:
+                        world.running.pop()
+                return super().schedule(marked, state)
+
+        sch = Marked()
+        sch.kind = kind
+        return sch
 
     def _action(self):
         ctl = dc.CUR[0]
@@ -280,6 +327,20 @@ class World:
                 return None
             if k == "dispose":
                 return o.dispose()
+        if cls == "schedstack":
+            if k == "dispose":
+                self.layers[op[1]].dispose()
+            elif k == "run":
+                sch = self.scheds[op[1]]
+                if sch.kind == "queue":
+                    self.running.append(op[1])
+                    try:
+                        sch.run_one()
+                    finally:
+                        self.running.pop()
+                elif sch.kind == "test":
+                    sch.start()
+            return None
         if cls == "nest":
             if k == "dispC":
                 return o.dispose()
@@ -329,6 +390,8 @@ class World:
         if cls in ("serial", "mad", "sad"):
             c = dc.raw(o, "current")
             return {"is_disposed": bool(dc.raw(o, "is_disposed")), "current": None if c is None else c.idx, "cnt": cnt}
+        if cls == "schedstack":
+            return {"cnt": cnt[:1], "released_on": list(self.released_on), "is_disposed": [bool(l.is_disposed) for l in self.layers]}
         if cls == "nest":
             c = dc.raw(self.serial, "current")
             return {"is_disposed": bool(dc.raw(o, "is_disposed")), "has_serial": any(x is self.serial for x in dc.raw(o, "disposable")),
